@@ -235,6 +235,18 @@ def replay_file(path):
     if res.get("harness_error"):
         return None, res, rec
     v = has_sig(res, rec["expected"]["signature"])
+    if v is None:
+        # a violation that depends on allocator state (object addresses handed out again,
+        # see World._adversarial_new) reproduces in the kind of session it was found in: a
+        # process image forked from a freshly started zygote
+        res2 = host.run_jobs([job])[0]
+        if not res2.get("harness_error"):
+            v2 = has_sig(res2, rec["expected"]["signature"])
+            if v2 is not None:
+                v2 = dict(v2, detail=str(v2.get("detail")) + " [reproduces in a session forked "
+                          "from a fresh zygote; not in a non-forked interpreter: depends on "
+                          "which addresses the allocator hands out again]")
+                return v2, res2, rec
     return v, res, rec
 
 
